@@ -39,6 +39,26 @@ def _variants(prop: str):
                 continue
             out.append({"id": v["id"], "edits": v["edits"], "expect": v.get("expect", "fire"),
                         "rule": v.get("rule"), "source": "selftest"})
+    # every repair of /repo recorded for this property: the repaired tree with the repair taken out
+    # again must bring the recorded finding back (skipped when later changes touch the same lines)
+    try:
+        import json as _json
+        kf = _json.load(open(os.path.join(VERIF, "known_findings.json")))["findings"]
+    except Exception:
+        kf = []
+    by_commit: dict[str, list[str]] = {}
+    # (prop, commit) pairs whose recorded key does not belong to that commit's own change
+    REVERT_SKIP = {("C11", "176c149"): "the key was recorded while the follow-up 9e07c6f was missing; "
+                                       "176c149 does not touch the timer pass"}
+    for f_ in kf:
+        if f_.get("status") == "fixed" and f_.get("property") == prop and f_.get("commit") \
+                and not f_["key"].startswith("review:") and (prop, f_["commit"]) not in REVERT_SKIP:
+            by_commit.setdefault(f_["commit"], []).append(f_["key"])
+    for c_, keys_ in sorted(by_commit.items()):
+        rp = os.path.join(VERIF, "selftest", "reverts", f"{c_}.diff")
+        if os.path.exists(rp):
+            out.append({"id": f"revert-{c_}", "rpatch": rp, "expect": "fire", "rule": None,
+                        "keys": keys_, "source": "revert"})
     for sd in sorted(glob.glob(os.path.join(VERIF, "seeded", f"{prop}-*"))):
         p = os.path.join(sd, "patch.diff")
         try:
@@ -74,7 +94,12 @@ def _one(args):
     try:
         dst = os.path.join(tmp, "src")
         shutil.copytree(src_root, dst, ignore=shutil.ignore_patterns("__pycache__", "*.egg-info"))
-        if "patch" in v:
+        if "rpatch" in v:
+            r = subprocess.run(["patch", "-R", "-p1", "-s", "-f", "-d", tmp, "-i", v["rpatch"]],
+                               capture_output=True, text=True)
+            if r.returncode != 0:
+                return v["id"], "skipped", "the repair can no longer be taken out (later changes on the same lines)"
+        elif "patch" in v:
             r = subprocess.run(["patch", "-p1", "-s", "-d", tmp, "-i", v["patch"]],
                                capture_output=True, text=True)
             if r.returncode != 0:
@@ -88,6 +113,13 @@ def _one(args):
                 open(p, "w").write(s.replace(old, new))
         res = _run_rules(prop, dst)
         new = [k for k in res["keys"] if k not in base_keys]
+        if v["expect"] == "fire" and v.get("keys"):
+            back = [k for k in v["keys"] if k.split(":", 1)[-1] in
+                    {x.split(":", 1)[-1] for x in res["keys"]} or k in res["keys"]]
+            # (the recorded key, or - when later changes gave the reverted shape another name -
+            # any finding the unchanged tree does not have)
+            return v["id"], "detected" if (back or new) else "MISSED", \
+                (back[0] if back else new[0] if new else (res["error"] or f"none of {v['keys'][:2]} reported"))
         if v["expect"] == "fire":
             ok = bool(new) and (not v["rule"] or v["rule"] in res["rules"])
             return v["id"], "detected" if ok else "MISSED", \
